@@ -160,6 +160,14 @@ def check(ctx):
             h = st.heap[est.obj.id]
             okE = h["alpha_type"].const == "relative" and h["regularization_method"].const == "cutoff" and h["random_state"].has_const and h["random_state"].const is not None and h["shuffle"].const is True
         ctx.ob("R-DEFAULTS", "default estimator is Ridge2FoldCV(relative cut-off, fixed seed)", okE, f"{est!r}", site)
+        if okE:
+            # the documented default grid: 20 relative cut-offs from 1e-9 (numerically exact fits are reachable) to 0.9
+            al = h["alphas"]
+            I3, s3 = ctx.interp(), State()
+            want = ctx.call_func(I3, s3, "ref.reconstruction_ref.default_alphas")
+            ctx.ob("R-DEFAULTS", "default regularisation grid is geomspace(1e-9, 0.9, 20)", N.nf(al.term) == N.nf(want.term), f"alphas = {al.term!r}", site)
+            sco = h.get("scoring")
+            ctx.ob("R-DEFAULTS", "default estimator selects by root-mean-squared error", sco is not None and sco.has_const and sco.const == "neg_root_mean_squared_error", f"scoring = {sco!r}", site)
     # the default model selection of the estimator class used here is rotation invariant
     Ir = ctx.interp(assume=protocols.assume_default, call_hook=protocols.fold_hook)
     sr = State()
